@@ -498,8 +498,44 @@ void lltd_verif_hook(const char *point, void *iface_ctx) {
 
 /* The format strings and arguments are part of the core's UB surface: format
  * them for real (under ASan/UBSan) and discard the result. */
+static volatile unsigned vlog_sink;
+
+/* Walk the arguments in instrumented code first: every %s argument is read up to its terminator here, so that a string
+ * that is not terminated, dangling or uninitialised is reported at this spot by the sanitizer of the build (libc's own
+ * formatter is not instrumented). */
+static void vlog_walk(const char *fmt, va_list ap0) {
+    va_list ap;
+    va_copy(ap, ap0);
+    for (const char *p = fmt; *p; p++) {
+        if (*p != '%') continue;
+        p++;
+        if (*p == '%') continue;
+        while (*p && strchr("-+ #0", *p)) p++;
+        if (*p == '*') { (void)va_arg(ap, int); p++; } else while (*p >= '0' && *p <= '9') p++;
+        if (*p == '.') { p++; if (*p == '*') { (void)va_arg(ap, int); p++; } else while (*p >= '0' && *p <= '9') p++; }
+        int l = 0, z = 0;
+        while (*p == 'l' || *p == 'h' || *p == 'z' || *p == 'j' || *p == 't') { if (*p == 'l') l++; if (*p == 'z' || *p == 'j' || *p == 't') z = 1; p++; }
+        switch (*p) {
+            case 'd': case 'i': case 'u': case 'x': case 'X': case 'o': case 'c':
+                if (z || l >= 1) { if (l >= 2) (void)va_arg(ap, long long); else (void)va_arg(ap, long); } else (void)va_arg(ap, int);
+                break;
+            case 'p': (void)va_arg(ap, void *); break;
+            case 's': {
+                const char *s = va_arg(ap, const char *);
+                if (s) for (size_t i = 0; i < 4096; i++) { unsigned char c = (unsigned char)s[i]; vlog_sink += c; if (!c) break; }
+                break;
+            }
+            case 'f': case 'g': case 'e': (void)va_arg(ap, double); break;
+            case 0: va_end(ap); return;
+            default: va_end(ap); return;       /* unknown conversion: stop walking, libc still formats */
+        }
+    }
+    va_end(ap);
+}
+
 static void vlog_discard(const char *fmt, va_list ap) {
     char scratch[1024];
+    vlog_walk(fmt, ap);
     (void)vsnprintf(scratch, sizeof(scratch), fmt, ap);
 }
 
